@@ -790,6 +790,41 @@ func parseLayers(j judge, tier string) []Layer {
 			},
 		})
 	}
+	// B5: long dense literals: n 19-digit groups (+ a partial group) with one group replaced by zeros or
+	// nines at every group index
+	{
+		ns := []int{3, 4, 5, 8, 9, 16, 17}
+		layers = append(layers, Layer{
+			Name:   "B5-long-dense",
+			Units:  len(ns),
+			Bounds: fmt.Sprintf("literals of n groups \"1234567890123456789\" (n in %v) + a partial group of 0, 1 or 18 digits, one group replaced by 19 zeros / 19 nines at every index; radix point none / after digit 1 / after digit 20 / before the partial group; precision {19n−1, 19n, 19n+1, 19n+18, 40} × modes Even/ToZero/AwayFromZero; bases 0 and 10", ns),
+			Run: func(c *Ctx, u int) {
+				n := ns[u]
+				const g = "1234567890123456789"
+				for i := 0; i < n; i++ {
+					for _, rep := range []string{strings.Repeat("0", 19), strings.Repeat("9", 19)} {
+						if i == 0 && rep[0] == '0' {
+							continue // leading zero group: B4's subject
+						}
+						for _, part := range []string{"", "7", "765432109876543215"} {
+							if c.Done() {
+								return
+							}
+							ds := strings.Repeat(g, i) + rep + strings.Repeat(g, n-1-i) + part
+							for _, s := range []string{ds, "-" + ds[:1] + "." + ds[1:], ds[:20] + "." + ds[20:] + "e3", ds[:19*n] + "." + ds[19*n:]} {
+								for _, p := range []uint32{uint32(19*n - 1), uint32(19 * n), uint32(19*n + 1), uint32(19*n + 18), 40} {
+									for _, m := range []uint8{ToNearestEven, ToZero, AwayFromZero} {
+										parseCase(c, j, s, 0, p, m, false)
+										parseCase(c, j, s, 10, p, m, false)
+									}
+								}
+							}
+						}
+					}
+				}
+			},
+		})
+	}
 	// B4: groups of zeros inside the digit string (the base-10 scanner works in 19-digit groups)
 	{
 		tails := []string{"", "1", "123", "1000000000000000000", "9999999999999999999", "12345678901234567890", "10000000000000000000000000000000000001", "1000000000000000000000000000000000000"}
